@@ -138,6 +138,20 @@ theorem c03_tokenTable_getVal (rbs base : Nat) (fields : List (List Tok)) (tid :
   refine ⟨blocks, hb, ?_⟩
   rw [getValByTID_spec rbs base blocks hc tid h1 (by rw [ha]; exact h2), ha]
 
+/-- **`GetValByTID` is a function of the TID only**: any sequence of calls on one sealed token index (ascending,
+descending, jumping across physical token blocks and table entries) answers every call with the tid-th token of the
+dictionary - no answer depends on the calls made before (a memo of the previous entry must not be observable) -/
+theorem c03_getVal_sequence_stateless (rbs base : Nat) (fields : List (List Tok)) (tids : List Nat)
+    (h : ∀ t, t ∈ tids → 1 ≤ t ∧ t ≤ fields.flatten.length) :
+    ∃ blocks, genTokenBlocks bsNew rbs fields = .ok blocks ∧
+      getValSeq base (writeTokens rbs base blocks) tids = tids.map fun t => fields.flatten[t - 1]? := by
+  obtain ⟨blocks, hb, hc, ha⟩ := genTokenBlocks_spec bsNew rbs bsNew_pos fields
+  refine ⟨blocks, hb, ?_⟩
+  unfold getValSeq
+  apply List.map_congr_left
+  intro t ht
+  rw [getValByTID_spec rbs base blocks hc t (h t ht).1 (by rw [ha]; exact (h t ht).2), ha]
+
 /-- **the token table re-loaded from the index file equals the table kept from sealing** (sibling of
 `c03_lidsTable_loaded_eq_preloaded`): `TableLoader.load` over the blocks `writeTokenTableBlocks` wrote - any number of
 fields and entries, any block size, fields of one physical token block spread over several table blocks - returns for
